@@ -383,5 +383,5 @@ def shape_class(sc):
 
 
 STREAMS = [
-    Stream("simulated_races", gen, run, quick=400, thorough=20000, shards=16),
+    Stream("simulated_races", gen, run, quick=400, thorough=200000, shards=16),
 ]
